@@ -111,10 +111,26 @@ class SymWorld:
     def ge(self, a, b): return self.le(b, a)
     def gt(self, a, b): return self.lt(b, a)
     def ne(self, a, b): return SB(z3.Not(self.eq(a, b).t))
-    def And(self, *cs): return SB(z3.And(*[self._b(c) for c in cs])) if cs else SB(True)
+    def And(self, *cs):
+        if not cs:
+            return SB(True)
+        ms = [getattr(c, "margin", None) for c in cs]
+        if all(m is not None for m in ms):
+            # conjunction of equalities: clearly violated when at least one component is off by the margin
+            g = _SBm(z3.And(*[self._b(c) for c in cs]))
+            g.margin = z3.Or(*ms)
+            return g
+        return SB(z3.And(*[self._b(c) for c in cs]))
     def Or(self, *cs): return SB(z3.Or(*[self._b(c) for c in cs])) if cs else SB(False)
     def Not(self, c): return SB(z3.Not(self._b(c)))
-    def Implies(self, a, b): return SB(z3.Implies(self._b(a), self._b(b)))
+    def Implies(self, a, b):
+        m = getattr(b, "margin", None)
+        if m is not None:
+            g = _SBm(z3.Implies(self._b(a), self._b(b)))
+            g.margin = z3.And(self._b(a), m)
+            return g
+        return SB(z3.Implies(self._b(a), self._b(b)))
+
     def ite(self, c, a, b): return p_ite(self._b(c), a, b)
 
     def goal(self, name, cond, **meta):
@@ -348,16 +364,38 @@ def _discharge(fn, params, W, g, base, timeout, replay, pathno):
                     rec["verdict"] = "violated"
                     rec["model"] = {k: _fr(v) for k, v in mdl.items() if "!" not in k}
                 return ok
-            if getattr(g, "lemma_index", None) is not None and not _try(raw) and (rec.get("replay") or {}).get("note") == "goal not reached concretely":
-                rec["verdict"] = "unknown"      # a stepping stone that has no concrete counterpart: simply not available to later goals
-                rec["reason"] = "lemma not provable (sat), dropped"
-            elif rec["verdict"] != "violated" and not _try(raw):
-                # ask for replay-friendly models: (a) harness-supplied "nice" constraints (dyadic parameters survive the
-                # conversion to binary64), (b) bounded inputs and a clear margin
-                for extra in ([W.nice + W.bounds] if W.nice else []) + ([W.nice] if W.nice else []) + ([[g.margin] + W.bounds] if g.margin is not None else []):
-                    r2 = solve.check(q + [z3.Not(g.t)] + list(extra), timeout=min(timeout, 10.0), inputs=W.inputs, portfolio=False)
-                    if r2["verdict"] == "sat" and r2["model"] and _try(r2["model"]):
+
+            def _small(mdl):
+                return all(abs(v) <= 10 ** 4 for k, v in mdl.items() if "!" not in k and isinstance(v, Fraction))
+            is_lemma = getattr(g, "lemma_index", None) is not None
+            done = False
+            if g.margin is not None and W.bounds:
+                # an equality goal: is there a CLEAR violation (difference >= 1/64) for inputs of ordinary size (|v| <= 64)?
+                rm = solve.check(q + [g.margin] + W.bounds, timeout=min(timeout, 10.0), inputs=W.inputs, portfolio=False)
+                if rm["verdict"] == "unsat":
+                    # only differences below the margin exist in the box: a rounding-level artefact of constants that are doubles in
+                    # the code (e.g. a numerically computed basis), not a violation -- reported as inconclusive, never as VIOLATION
+                    rec["verdict"] = "unknown"
+                    rec["reason"] = "lhs != rhs is satisfiable only with differences below 1/64 for inputs bounded by 64 (rounding-level constants)"
+                    done = True
+                elif rm["verdict"] == "sat" and rm["model"]:
+                    done = _try(rm["model"])
+            if not done and rec["verdict"] != "unknown":
+                cands = ([raw] if _small(raw) else [])
+                for extra in ([W.nice + W.bounds] if W.nice else []) + ([W.bounds] if W.bounds else []) + ([W.nice] if W.nice else []):
+                    if any(_try(c) for c in cands):
                         break
+                    cands = []
+                    r2 = solve.check(q + [z3.Not(g.t)] + list(extra), timeout=min(timeout, 10.0), inputs=W.inputs, portfolio=False)
+                    if r2["verdict"] == "sat" and r2["model"]:
+                        cands = [r2["model"]]
+                else:
+                    any(_try(c) for c in cands)
+                if rec["verdict"] == "unconfirmed" and not _small(raw) and not W.nice:
+                    _try(raw)
+            if is_lemma and rec["verdict"] == "unconfirmed" and (rec.get("replay") or {}).get("note") == "goal not reached concretely":
+                rec["verdict"] = "unknown"
+                rec["reason"] = "lemma not provable (sat), dropped"
         else:
             rec["verdict"] = "sat-noreplay"
     return rec
